@@ -139,3 +139,112 @@ var basicModes = []modeT{
 	{"enc-code", srvOpts{bufSize: 64, enc: "code"}, cliOpts{bufSize: 64}},
 	{"enc-json", srvOpts{bufSize: 64, enc: "json"}, cliOpts{bufSize: 64}},
 }
+
+// ---- listener based fixture (fake socket): Server.ListenWithOptions / DialWithOptions, poll emulation
+
+type netFixture struct {
+	n       *FakeNet
+	w       *World
+	srv     *rpc.Server
+	conn    *rpc.Conn
+	so      srvOpts
+	lisRet  bool
+	lisErr  error
+	dialErr error
+}
+
+func (so srvOpts) options(n *FakeNet, clientBuf int) *rpc.Options {
+	codec := so.codec
+	if codec == nil {
+		codec = bytesCodec
+	}
+	return &rpc.Options{NewSocket: n.Socket, NewCodec: codec, HeaderEncoder: so.enc, ClientBufferSize: clientBuf}
+}
+
+func startListener(n *FakeNet, w *World, addr string, so srvOpts, poll bool) (*rpc.Server, *bool) {
+	srv := newServer(w, so)
+	srv.SetPoll(poll)
+	ret := new(bool)
+	vs.GoLib("Listen("+addr+")", func() {
+		srv.ListenWithOptions(addr, so.options(n, 0))
+		*ret = true
+	})
+	return srv, ret
+}
+
+func newNetFixture(so srvOpts, co cliOpts, poll bool, workers int) *netFixture {
+	f := &netFixture{n: newNet(), w: newWorld(), so: so}
+	f.n.pollWorkers = workers
+	f.srv = newServer(f.w, so)
+	f.srv.SetPoll(poll)
+	vs.GoLib("Listen", func() {
+		f.lisErr = f.srv.ListenWithOptions("srv", so.options(f.n, 0))
+		f.lisRet = true
+	})
+	vs.Quiesce()
+	f.conn, f.dialErr = rpc.DialWithOptions("srv", so.options(f.n, co.bufSize))
+	if f.dialErr != nil {
+		vs.Fatal("fixture dial failed: " + f.dialErr.Error())
+	}
+	if co.bufSize > 0 {
+		f.conn.SetBufferSize(co.bufSize)
+	}
+	if co.pipelining {
+		f.conn.SetPipelining(true)
+	}
+	if co.directIO {
+		f.conn.SetDirectIO(true)
+	}
+	if co.noCopy {
+		f.conn.SetNoCopy(true)
+	}
+	return f
+}
+
+// clientEnd returns the pipe end used by the k-th dialled connection.
+func (f *netFixture) clientEnd(k int) *PipeEnd { return f.n.conns[k].end }
+
+// sys abstracts over the two fixture kinds for scenarios that run in every server mode.
+type sys struct {
+	w    *World
+	conn *rpc.Conn
+	srv  *rpc.Server
+	cl   *PipeEnd
+	nf   *netFixture
+	name string
+}
+
+type sysMode struct {
+	name    string
+	poll    bool
+	workers int
+	listen  bool
+}
+
+var sysModes = []sysMode{
+	{"servecodec", false, 0, false},
+	{"listen", false, 0, true},
+	{"poll1", true, 1, true},
+	{"poll2", true, 2, true},
+}
+
+func newSys(m sysMode, so srvOpts, co cliOpts) *sys {
+	if !m.listen {
+		f := newFixture(so, co)
+		return &sys{w: f.w, conn: f.conn, srv: f.srv, cl: f.cl, name: m.name}
+	}
+	nf := newNetFixture(so, co, m.poll, m.workers)
+	return &sys{w: nf.w, conn: nf.conn, srv: nf.srv, cl: nf.clientEnd(0), nf: nf, name: m.name}
+}
+
+// finish closes everything and lets the system settle.
+func (s *sys) finish() {
+	s.conn.Close()
+	if s.nf != nil {
+		s.srv.Close()
+	}
+	vs.Quiesce()
+}
+
+var _ = context.Background
+var _ = fmt.Sprint
